@@ -146,6 +146,8 @@ def gen_data(rng, N, cplx, style):
         return noise(N)
     if style == 'scaled':
         return noise(N) * 10.0 ** int(rng.integers(-3, 4))
+    if style == 'extreme':                      # very small / very large amplitudes: every clause is scale free
+        return noise(N) * 10.0 ** int(rng.choice([-12, -10, -8, -7, -6, 6, 8, 10]))
     if style == 'int':
         return lowbit(rng, N, cplx, bits=5)
     # ARMA-generated: stable poles, zeros inside the unit circle
@@ -327,11 +329,14 @@ def estimator_out(name, x, prm):
     a, e = spectrum.modcovar(x, prm['P']); return a, [], e, prm['P']
 
 
-def check_class(name, x, prm, NFFT, sampling, sbf, tag):
+def check_class(name, x, prm, NFFT, sampling, sbf, tag, route='fresh'):
+    from props import _estimators as E
     bad = []
     x = np.asarray(x); real = bool(np.isrealobj(x))
-    p = make_obj(name, x, prm, NFFT, sampling, sbf)
-    p()
+    # the object is freshly constructed or (route) one that already computed an estimate for other data / sampling / NFFT / scaling
+    p = E.via(lambda d, n, s_, b: make_obj(name, d, prm, n, s_, b), x, NFFT, sampling, sbf, route)
+    if route in (None, 'fresh'):
+        p()                                     # explicit computation; on the other routes the read below has to bring the estimate up to date
     psd = np.asarray(p.psd)
     nfft = p.NFFT
     nb = (nfft // 2 + 1 if nfft % 2 == 0 else (nfft + 1) // 2) if real else nfft
@@ -378,7 +383,7 @@ def replay(rep):
             elif f == 'arma_estimate':
                 bad = check_arma(x, r['P'], r['Q'], r['lag'], 'replay')
             else:
-                bad = check_class(f, x, r['prm'], r['NFFT'], r['sampling'], r['sbf'], 'replay')
+                bad = check_class(f, x, r['prm'], r['NFFT'], r['sampling'], r['sbf'], 'replay', r.get('route', 'fresh'))
             return not [b for b in bad if not b[0].startswith('model/')]
         except Exception:
             return False
@@ -690,7 +695,7 @@ def run(ctx):
             else:
                 ctx.violation(key, what, rep)
 
-    styles = ['noise', 'arma', 'arma', 'int', 'scaled']
+    styles = ['noise', 'arma', 'arma', 'int', 'scaled', 'extreme']
     for it in range(ctx.q(700, 12000)):
         cplx = bool(rng.integers(0, 2)); tag = 'complex' if cplx else 'real'
         N = int(rng.integers(16, ctx.q(129, 257))); style = str(rng.choice(styles))
@@ -735,14 +740,16 @@ def run(ctx):
                 continue
             NFFT = None if rng.integers(0, 6) == 0 else int(rng.integers(max(Pc, Qc, prm['M'] if name == 'pma' else 0) + 1, 600))
             sampling = float(rng.choice(SAMPLINGS)); sbf = bool(rng.integers(0, 2))
-            rep = {'function': name, 'x': vlib.hexv(x), 'prm': prm, 'NFFT': NFFT, 'sampling': sampling, 'sbf': sbf}
+            from props import _estimators as E
+            route = E.pick_route(rng); ctx.count('search/class/route/%s' % route)
+            rep = {'function': name, 'x': vlib.hexv(x), 'prm': prm, 'NFFT': NFFT, 'sampling': sampling, 'sbf': sbf, 'route': route}
             par = 'default' if NFFT is None else ('even' if NFFT % 2 == 0 else 'odd')
             ctx.count('search/class/%s/%s/NFFT-%s' % (name, tag, par))
             ctx.case(('search-class', name, x.tobytes(), repr(prm), NFFT, sampling, sbf), nontrivial=True,
                      sample={'function': name + ' (search)', 'N': N, 'prm': prm, 'NFFT': NFFT, 'sampling': sampling, 'scale_by_freq': sbf})
             try:
                 with np.errstate(all='ignore'):
-                    viol(check_class(name, x, prm, NFFT, sampling, sbf, tag), rep)
+                    viol(check_class(name, x, prm, NFFT, sampling, sbf, tag, route), rep)
             except Exception as e:
                 if name in ('pcovar', 'pmodcovar', 'pburg') and isinstance(e, (AssertionError, ValueError)):
                     ctx.count('search/class/degenerate-raised'); continue
